@@ -90,11 +90,11 @@ def fetch(port, request, reader="fast", rnd=None, timeout=30):
         s = client_ctx().wrap_socket(raw, server_hostname="localhost")
         s.sendall(request)
         out = bytearray()
-        fetch._idled = False
+        idled = False
         while True:
-            if reader == "idle5" and len(out) > 0 and not getattr(fetch, "_idled", False):
-                fetch._idled = True
-                time.sleep(5)
+            if reader == "idle5" and len(out) > 0 and not idled:
+                idled = True
+                time.sleep(4)
             if reader == "slow":
                 time.sleep(0.002)
                 n = 1024
@@ -171,18 +171,7 @@ def c06_live(rep, rnd, thorough):
                     rep.violation({"formula": "BackendsIdentical", "kind": kind, "live": True},
                                   "streams differ between backends for a %s body of %d" % (kind, size), None)
                 del bodies[key]
-        if thorough:
-            # a reader that idles for a few seconds after the header while a body larger than the kernel's socket buffers is pending
-            key = "bytes-idle"
-            size = 24 * 1024 * 1024
-            bodies[key] = body_for(size, "bytes", rnd)
-            for bk, srv in servers.items():
-                data, end = fetch(srv.port, b"gemini://localhost/%s\r\n" % key.encode(), "idle5", rnd, timeout=90)
-                n += 1
-                if data != b"20 application/octet-stream\r\n" + bodies[key] or end != "eof":
-                    rep.violation({"formula": "ByteExact", "backend": bk, "kind": "bytes", "live": True, "reader": "idle"},
-                                  "live %s backend, 24 MiB body, reader idle for 5 s after the header: received %d bytes, end=%s" % (bk, len(data), end), None)
-            del bodies[key]
+        n += started_server_idle_reader(rep, cert)
         rep.add("live_fetches", n)
         rep.add("traces_validated_against_impl", n)
         rep.sample({"live_c06": {"sizes": sizes[:12], "backends": list(servers), "readers": ["fast", "slow", "bursty"]}})
@@ -190,6 +179,43 @@ def c06_live(rep, rnd, thorough):
         for s in servers.values():
             s.stop()
         cert.remove()
+
+
+def started_server_idle_reader(rep, cert):
+    """The servers the REAL start_server builds (both backends), a static file larger than the kernel's socket buffers,
+    and a reader that idles for a few seconds after the header: every byte must still arrive."""
+    import shutil
+    import tempfile
+    from checks.c20 import RealServer
+    root = tempfile.mkdtemp(prefix="vf-c06-")
+    line = "0123456789 abcdefghijklmnopqrstuvwxyz ABCDEFGHIJKLMNOPQRSTUVWXYZ\n"
+    content = (line * (24 * 1024 * 1024 // len(line) + 1))
+    with open(os.path.join(root, "big.gmi"), "w") as f:
+        f.write(content)
+    servers = {}
+    results = {}
+    try:
+        for bk in ("stdlib", "pyopenssl"):
+            servers[bk] = RealServer(bk, "supplied", root, cert)
+
+        def run(bk):
+            results[bk] = fetch(servers[bk].port, b"gemini://localhost/big.gmi\r\n", "idle5", None, timeout=120)
+        ths = [threading.Thread(target=run, args=(bk,)) for bk in servers]
+        for t in ths:
+            t.start()
+        for t in ths:
+            t.join(180)
+        want = b"20 text/gemini\r\n" + content.encode()
+        for bk, (data, end) in results.items():
+            if data != want or end != "eof":
+                rep.violation({"formula": "ByteExact", "backend": bk, "live": True, "reader": "idle", "via": "start_server"},
+                              "server started by start_server (%s backend), 24 MiB static file, reader idle for 4 s after the header: received %d of %d bytes, end=%s" % (
+                                  bk, len(data), len(want), end), None)
+        return len(results)
+    finally:
+        for s_ in servers.values():
+            s_.stop()
+        shutil.rmtree(root, ignore_errors=True)
 
 
 # ---------------------------------------------------------------------------------------------------------------------
